@@ -164,6 +164,65 @@ Fixpoint iwp_marginals (sigma asp : Qc) (dts : list Qc) (P : sym) : list sym :=
   | dt :: rest => P :: iwp_marginals sigma asp rest (iwp_propagate dt P (iwp_Q sigma asp dt))
   end.
 
+(* ---------------------------------------------------------------- linear-response view
+   (definitions used by the theorems AND run by the correspondence check) *)
+Definition third : Qc := Q2Qc (1 # 3).
+Definition twelfth : Qc := Q2Qc (1 # 12).
+
+(* G G^T of a matrix ((a, b), (c, d)) as symmetric (p00, p01, p11) *)
+Definition ggt (m : mat) : sym :=
+  let '((a, b), (c, d)) := m in (a * a + b * b, a * c + b * d, c * c + d * d).
+
+
+Fixpoint times_from (t : Qc) (dts : list Qc) : list Qc :=
+  match dts with [] => [t] | d :: r => t :: times_from (t + d) r end.
+
+
+(* response columns of the 2-D state: one step maps the columns by F and appends the two columns of G *)
+Definition cols_step (F G : mat) (cols : list (Qc * Qc)) : list (Qc * Qc) :=
+  map (mv F) cols ++ [(fst (fst G), fst (snd G)); (snd (fst G), snd (snd G))].
+
+Fixpoint colsum (cols : list (Qc * Qc)) : sym :=
+  match cols with
+  | [] => (0, 0, 0)
+  | (a, b) :: r => let '(p, q, w) := colsum r in (a * a + p, a * b + q, b * b + w)
+  end.
+
+
+(* the columns after 0, 1, 2, ... steps, starting from the unit responses to x0 *)
+Fixpoint iwp_cols (cols : list (Qc * Qc)) (Fs Gs : list mat) : list (list (Qc * Qc)) :=
+  match Fs, Gs with
+  | F :: Fs', G :: Gs' => cols :: iwp_cols (cols_step F G cols) Fs' Gs'
+  | _, _ => [cols]
+  end.
+
+(* scalar processes: coefficient row of x_k with respect to the excitations seen so far *)
+Fixpoint srows (row : list Qc) (ds amps : list Qc) : list (list Qc) :=
+  match ds, amps with
+  | d :: ds', a :: amps' => row :: srows (map (Qcmult d) row ++ [a]) ds' amps'
+  | _, _ => [row]
+  end.
+
+(* sum_k a_k b_k over the common prefix (a shorter row is a row padded with zeros: causality) *)
+Fixpoint dot (a b : list Qc) : Qc :=
+  match a, b with
+  | x :: a', y :: b' => x * y + dot a' b'
+  | _, _ => 0
+  end.
+
+
+Fixpoint decays (c : Qc) (ds amps : list Qc) : list Qc :=
+  match ds, amps with
+  | d :: ds', _ :: amps' => c :: decays (d * c) ds' amps'
+  | _, _ => [c]
+  end.
+
+
+Definition iwp_amps (sigma s dt r : list Qc) : list mat :=
+  map (fun p => iwp_amp (fst (fst p)) (snd (fst p)) (fst (snd p)) (snd (snd p)))
+      (combine (combine sigma s) (combine dt r)).
+
+
 (* ---------------------------------------------------------------- comparison helpers *)
 Definition qc_eqb (a b : Qc) : bool := Qeq_bool a b.
 Definition qc_close (tol a b : Qc) : bool := Qle_bool (Qabs (a - b)%Q) tol.
@@ -180,3 +239,59 @@ Definition pair_cmp (cmp : Qc -> Qc -> bool) (u v : Qc * Qc) : bool := cmp (fst 
 Definition qcl (l : list Q) : list Qc := map Q2Qc l.
 Definition qcp (p : Q * Q) : Qc * Qc := (Q2Qc (fst p), Q2Qc (snd p)).
 Definition qcpl (l : list (Q * Q)) : list (Qc * Qc) := map qcp l.
+
+(* observed full-length response row against the model's causal row: equal on the model's
+   prefix, zero beyond *)
+Fixpoint row_match {A : Type} (cmp : A -> A -> bool) (zero : A) (model obs : list A) : bool :=
+  match model, obs with
+  | [], _ => forallb (cmp zero) obs
+  | m :: model', o :: obs' => cmp m o && row_match cmp zero model' obs'
+  | _ :: _, [] => false
+  end.
+
+Definition qmat (m : (Q * Q) * (Q * Q)) : mat := (qcp (fst m), qcp (snd m)).
+
+(* ---- correspondence checks (implementation outputs arrive as exact dyadic rationals) *)
+Definition chk_wiener (xi : list Q) (x0 : Q) (sigma s obs : list Q) : bool :=
+  list_eqb qc_eqb (wiener (qcl xi) (Q2Qc x0) (qcl sigma) (qcl s)) (qcl obs).
+
+Definition chk_wiener_rows (sigma s : list Q) (obs : list (list Q)) : bool :=
+  list_eqb (row_match qc_eqb 0)
+           (srows [1] (repeat 1 (length s)) (map2 Qcmult (qcl s) (qcl sigma))) (map qcl obs).
+
+Definition chk_gmp1 (drift amp xi : list Q) (x0 : Q) (obs : list Q) : bool :=
+  list_eqb qc_eqb (gmp1 (qcl drift) (qcl amp) (qcl xi) (Q2Qc x0)) (qcl obs).
+
+Definition chk_gmp1_rows (drift amp : list Q) (obs : list (list Q)) : bool :=
+  list_eqb (row_match qc_eqb 0) (srows [1] (qcl drift) (qcl amp)) (map qcl obs).
+
+Definition chk_ou (tol : Q) (xi : list Q) (x0 : Q) (sigma e q obs : list Q) : bool :=
+  list_eqb (qc_close (Q2Qc tol)) (ou (qcl xi) (Q2Qc x0) (qcl sigma) (qcl e) (qcl q)) (qcl obs).
+
+Definition chk_ou_rows (tol : Q) (sigma e q : list Q) (obs : list (list Q)) : bool :=
+  list_eqb (row_match (qc_close (Q2Qc tol)) 0)
+           (srows [1] (qcl e) (map2 Qcmult (qcl sigma) (qcl q))) (map qcl obs).
+
+Definition chk_iwp (tol : Q) (xi : list (Q * Q)) (x0 : Q * Q) (sigma s dt r : list Q) (obs : list (Q * Q)) : bool :=
+  list_eqb (pair_cmp (qc_close (Q2Qc tol)))
+           (iwp (qcpl xi) (qcp x0) (qcl sigma) (qcl s) (qcl dt) (qcl r)) (qcpl obs).
+
+Definition chk_iwp_cols (tol : Q) (sigma s dt r : list Q) (obs : list (list (Q * Q))) : bool :=
+  list_eqb (row_match (pair_cmp (qc_close (Q2Qc tol))) (0, 0))
+           (iwp_cols [(1, 0); (0, 1)] (map iwp_drift (qcl dt)) (iwp_amps (qcl sigma) (qcl s) (qcl dt) (qcl r)))
+           (map qcpl obs).
+
+Definition chk_gmp2 (tol : Q) (drift diffamp : list ((Q * Q) * (Q * Q))) (xi : list (Q * Q)) (x0 : Q * Q)
+           (obs : list (Q * Q)) : bool :=
+  list_eqb (pair_cmp (qc_close (Q2Qc tol)))
+           (gmp2 (map qmat drift) (map qmat diffamp) (qcpl xi) (qcp x0)) (qcpl obs).
+
+(* covariance of the implementation's response columns (sum over the xi columns) against the
+   closed-form marginal covariance propagated with the semigroup recursion *)
+Definition sym_close (tol : Qc) (a b : sym) : bool :=
+  qc_close tol (fst (fst a)) (fst (fst b)) && qc_close tol (snd (fst a)) (snd (fst b)) && qc_close tol (snd a) (snd b).
+
+Definition chk_iwp_marginals (tol sigma asp : Q) (dt : list Q) (obs_cols : list (list (Q * Q))) : bool :=
+  list_eqb (sym_close (Q2Qc tol))
+           (iwp_marginals (Q2Qc sigma) (Q2Qc asp) (qcl dt) (0, 0, 0))
+           (map (fun c => colsum (qcpl c)) obs_cols).
